@@ -1,8 +1,13 @@
-(** Property C01: parsing is total.  Only pinned statements; proofs live in ParseProofs/. *)
+(** Property C01: parsing is total.  Only pinned statements; proofs live in ParseProofs/
+    (Invariant.v: the token loop of one level; Totality.v: recursion over the command tree;
+    ValidateTotal.v: the validator; TotalityMain.v: assembly). *)
 From ClapModel Require Import Base.Bytes Base.Machine Base.Utf8.
 From ClapModel Require Import Parse.Cmd Parse.Build Parse.Valid Parse.Matcher Parse.Errors Parse.Validator Parse.Parser.
-From ClapModel Require Import ParseProofs.Totality.
+From ClapModel Require Import ParseProofs.Safe ParseProofs.Invariant ParseProofs.Totality
+                              ParseProofs.ValidateTotal ParseProofs.Relations ParseProofs.TotalityMain.
 From Coq Require Import ZArith.
+From RecordUpdate Require Import RecordSet.
+Import RecordSetNotations.
 Open Scope N_scope.
 
 (** [Arg::_build] gives every argument an action, a value range and a value parser, so the
@@ -23,3 +28,63 @@ Theorem C01_ignore_errors : forall c toks,
   end.
 Proof. exact do_parse_ignore_errors. Qed.
 Print Assumptions C01_ignore_errors.
+
+(** The validator never reaches one of its own [expect]/[debug_assert] sites when the matcher's
+    keys are arguments or groups of a command that passed the gate, for any relation graph. *)
+Theorem C01_validate_total : forall c m,
+  assert_app c = true -> keys_ok c (mt_args m) -> forall s, validate c m <> VPanic s.
+Proof. intros c m H. apply validate_total. apply assert_app_rel_wf. exact H. Qed.
+Print Assumptions C01_validate_total.
+
+(** MAIN THEOREM.  For every command definition a user can write ([plain]: the internal Built flag
+    is unset; class restriction: no subcommand carries a *short* flag) that the library's own
+    configuration checks accept ([valid]: assert_app/assert_arg/_verify_positionals on every node as
+    the parser builds it), parsing ANY token list (any length, any bytes) neither reaches a panic
+    site (unwrap/expect/unreachable!/debug_assert/index/unsigned subtraction, all modelled
+    explicitly) nor runs out of the recursion fuel: it returns matches or a structured error. *)
+Theorem C01_no_panic : forall c0 toks,
+  plain c0 = true -> valid c0 = true ->
+  match do_parse c0 toks with OPanicked _ | OOutOfFuel => False | _ => True end.
+Proof. exact do_parse_total. Qed.
+Print Assumptions C01_no_panic.
+
+(** the same through [try_get_matches_from] (program name taken from argv[0]) *)
+Theorem C01_no_panic_top : forall c0 argv,
+  plain c0 = true -> (forall b, valid (c0 <| c_bin_name := b |>) = true) -> valid c0 = true ->
+  match parse_top c0 argv with OPanicked _ | OOutOfFuel => False | _ => True end.
+Proof. exact parse_top_total. Qed.
+Print Assumptions C01_no_panic_top.
+
+(** Outside the class the statement is false of the faithful model (and of the implementation:
+    recorded finding C01-flag-subcmd-skip): nested short flag-subcommands with an intermediate
+    flag that consumes three indices. *)
+Definition refuted_cmd : cmd :=
+  let z := (arg_new [122]) <| a_short := Some 122 |> <| a_action := Some ASetTrue |> in
+  let q := (cmd_new [113]) <| c_short_flag := Some 113 |> <| c_args := [z] |> in
+  let f := (arg_new [102]) <| a_short := Some 102 |> <| a_action := Some ASet |>
+             <| a_num := Some r_empty |> <| a_default_missing := [[97]; [98]] |> in
+  let s := (cmd_new [83]) <| c_short_flag := Some 83 |> <| c_args := [f] |> <| c_subs := [q] |> in
+  (cmd_new [112]) <| c_subs := [s] |>.
+Theorem C01_no_panic_refuted :
+  valid refuted_cmd = true /\ parse_top refuted_cmd [[112]; [45; 83; 102; 113; 122]] = OPanicked 920.
+Proof. split; vm_compute; reflexivity. Qed.
+Print Assumptions C01_no_panic_refuted.
+
+(** Non-vacuity: a command with options, a group, conflicts, a positional, a subcommand with a long
+    flag and inference enabled satisfies the hypotheses of the main theorem under every program name. *)
+Definition nonvacuous_cmd : cmd :=
+  let a := (arg_new [97]) <| a_short := Some 97 |> <| a_long := Some [97; 97] |> <| a_groups := [[103]] |>
+             <| a_blacklist := [[98]] |> in
+  let b := (arg_new [98]) <| a_long := Some [98; 98] |> <| a_action := Some ACount |> in
+  let p := (arg_new [112]) <| a_num := Some {| vmin := 0; vmax := usize_max |} |> in
+  let sub := (cmd_new [115; 117; 98]) <| c_long_flag := Some [115] |> <| c_args := [(arg_new [120]) <| a_short := Some 120 |>] |> in
+  (cmd_new [112]) <| c_args := [a; b; p] |> <| c_subs := [sub] |>
+                  <| c_set := settings_none <| s_infer_long := true |> <| s_args_negate_subs := true |> |>.
+Theorem C01_hypotheses_satisfiable :
+  plain nonvacuous_cmd = true /\ valid nonvacuous_cmd = true
+  /\ (forall b, valid (nonvacuous_cmd <| c_bin_name := b |>) = true).
+Proof.
+  split; [vm_compute; reflexivity|split; [vm_compute; reflexivity|]].
+  intros [b|]; vm_compute; reflexivity.
+Qed.
+Print Assumptions C01_hypotheses_satisfiable.
